@@ -145,10 +145,10 @@ def r3_dump(ctx):
         ctx.check(all(v == 'None' for v in defaults.values()), 'R3', f.loc, f.qualname, f'{f.name}-defaults-none',
                   'every option defaults to None ("not given")', f'{f.name} defaults: { {k: v for k, v in defaults.items() if v != "None"} }')
     rets = symex.returns(dumps)
-    ok = len(rets) == 1 and src(rets[0][1]).startswith('generic.Generic.export(document=document, options=generic.Generic.parse_options_to_ExportOptions(')
+    ok = len(rets) == 1 and src(rets[0][1]).startswith('generic.Generic.export(document, generic.Generic.parse_options_to_ExportOptions(')
     ctx.check(ok, 'R3', dumps.loc, dumps.qualname, 'dumps-delegates', 'dumps = Generic.export(document, parsed options)')
     rets = symex.returns(dump)
-    ok = len(rets) == 1 and src(rets[0][1]).startswith('generic.Generic.store(document=document, path=fp, options=generic.Generic.parse_options_to_ExportOptions(')
+    ok = len(rets) == 1 and src(rets[0][1]).startswith('generic.Generic.store(document, fp, generic.Generic.parse_options_to_ExportOptions(')
     ctx.check(ok, 'R3', dump.loc, dump.qualname, 'dump-delegates', 'dump = Generic.store(document, fp, parsed options)')
     store = ctx.prog.func(f'{N.GENERIC}.Generic.store')
     doc, path, opt = store.params[1:4]
